@@ -296,7 +296,7 @@ def in_eval_subset(n, top=True):
       right = in_eval_subset(c)
     return in_eval_subset(n.left) and right
   if cls == 'Name':
-    return n.id not in ('True', 'False', 'None')
+    return n.id not in ('True', 'False', 'None', '__debug__')
   if cls == 'Constant':
     return const_plain(n.value)
   if cls == 'Attribute':
@@ -507,6 +507,15 @@ IDENT_ATTRS = ['A', 'B', 'AA', 'Name', 'Email', 'office', 'Access', 'city', 'x',
                'user', 'Cust', 'School']
 
 
+# Placeholder for a `$` that stands for `rec.`: the generators emit it, finish() gives the formula and the same
+# formula spelled with `rec.` (literal `$` inside strings and comments stays as it is in both).
+DOLLAR = '\x01'
+
+
+def finish(raw):
+  return raw.replace(DOLLAR, '$'), raw.replace(DOLLAR, 'rec.')
+
+
 class Gen(object):
   """Random predicate formulas as TEXT (so positions, parentheses, blanks, comments and `$` are real)."""
 
@@ -519,7 +528,7 @@ class Gen(object):
     return self.rng.choice(['', ' ', ' ', ' ', '  '])
 
   def name(self):
-    return self.rng.choice(ENV_NAMES + FUNCS + ['max', 'inf', 'nan', '__debug__'])
+    return self.rng.choice(ENV_NAMES + FUNCS + ['max', 'inf', 'nan'])
 
   def col(self):
     return self.rng.choice(self.cols)
@@ -551,10 +560,10 @@ class Gen(object):
     r = self.rng
     k = r.random()
     if k < 0.3:
-      return '$' + self.col()
+      return DOLLAR + self.col()
     base = r.choice(['rec', 'rec', 'newRec', 'oldRec', 'user', 'user', 'choice', 'r', 'n', 'a'])
     if k < 0.4:
-      base = '$' + self.col()
+      base = DOLLAR + self.col()
     dot = r.choice(['.', '.', '.', ' .', '. ', ' . '])
     out = base + dot + self.col()
     while r.random() < 0.3:
@@ -721,5 +730,5 @@ FIXED_FORMULAS = [
   "1e-400", "0.1+0.2", "a.b.c()", "rec.$x", "(1,2) == [1,2]", "x in ()", "not not a", "a and b and c or d",
   "rec.A ==", "+ 'New' in choice.city and $name == rec.name", "'\\ud800'", "1" * 5000, "((((((a))))))",
   "a if", "a \\\n and b", "a and\nb", "\ta", "a\x0c", "a # c\x0c ", "\x0ca", "a #\r\n", "# only\n# comments", "a\r\n#c",
-  "None is None", "not True", "[] == []", "[[1, [2]], []]", "f()", "f(k=1)", "$A.lower()", "user . Name",
+  "__debug__", "None is None", "not True", "[] == []", "[[1, [2]], []]", "f()", "f(k=1)", "$A.lower()", "user . Name",
 ]
